@@ -122,7 +122,10 @@ pub fn alphabet(full: bool) -> Vec<Letter> {
     v.push(l("sled300", &b));
   }
   v.push(l("ei-nop-di", &[0xFB, 0x00, 0xF3]));
+  // the display switched off (LCDC bit 7 cleared): the devices still have to be given their time
+  v.push(l("lcd-off", &[0xAF, 0xE0, 0x40]));
   if full {
+    v.push(l("lcd-off-on", &[0xAF, 0xE0, 0x40, 0x00, 0x00, 0x3E, 0x91, 0xE0, 0x40]));
     v.push(l("ei-di", &[0xFB, 0xF3]));
     v.push(l("di-ei-halt", &[0xF3, 0xFB, 0x76, 0x00]));
     let mut d = l("div-reset", &[0xAF, 0xE0, 0x04]);
